@@ -44,8 +44,11 @@ CONSTANTS Transports,    \* subset of {"min", "prefix", "obfs4"}
           Exclusions,    \* subset of {"none", "orig", "other"}
           Percents,      \* subset of DOMAIN PctTable: which transports have 100 % (the others 0 %) of registrations substituted
           ForgedKinds,   \* subset of {"none", "resp", "sig", "both"}
+          Outdated,      \* subset of BOOLEAN: the client's ClientConf generation is behind the registrar's.  A front end then
+                         \* ATTACHES its ClientConf to what the client is told - and changes nothing else of it
           Variant        \* "intended" | "clone-early" | "forward-forged" | "override-despite-disable"
-                         \* | "exclude-after-subst" | "last-wins"
+                         \* | "exclude-after-subst" | "last-wins" | "rebuild-for-outdated" (the answer for an outdated client is
+                         \* rebuilt field by field and the transport parameters are left out)
 
 VARIABLES req, cfg, u, phase, resp, fwd, sv, obs
 vars == <<req, cfg, u, phase, resp, fwd, sv, obs>>
@@ -77,8 +80,8 @@ Fams(f) == IF f = "dual" THEN {"v4", "v6"} ELSE {f}
 PctTable == [neither |-> <<0, 0>>, both |-> <<100, 100>>, minonly |-> <<100, 0>>, prefixonly |-> <<0, 100>>]
 PctOf(c, t) == IF t = "min" THEN PctTable[c.pct][1] ELSE IF t = "prefix" THEN PctTable[c.pct][2] ELSE 0
 
-Requests == {[t |-> t, fam |-> f, disable |-> d, randomize |-> r, pid |-> p, forged |-> g] :
-               t \in Transports, f \in Families, d \in BOOLEAN, r \in BOOLEAN, p \in {"pmin", "pget"}, g \in ForgedKinds}
+Requests == {[t |-> t, fam |-> f, disable |-> d, randomize |-> r, pid |-> p, forged |-> g, outdated |-> o] :
+               t \in Transports, f \in Families, d \in BOOLEAN, r \in BOOLEAN, p \in {"pmin", "pget"}, g \in ForgedKinds, o \in Outdated}
 ValidReq(q) == q.t # "prefix" => q.pid = "pmin"      \* the prefix id only exists for the prefix transport
 Configs == {[ovr |-> o, enforce |-> e, subs |-> s, excl |-> x, pct |-> p, auth |-> a, rnd |-> r] :
               o \in OverrideSets, e \in BOOLEAN, s \in SubnetCfgs, x \in Exclusions, p \in Percents, a \in BOOLEAN, r \in BOOLEAN}
@@ -153,8 +156,10 @@ Init == /\ req \in {q \in Requests : ValidReq(q)}
 Register ==
   /\ phase = "init"
   /\ \E app \in Applied(req, cfg) :
-       /\ resp' = MkResp(req, cfg, u, app)
-       /\ fwd' = [payload |-> req, response |-> FwdResponse(req, cfg, resp'), sig |-> FwdSig(req, cfg)]
+       /\ resp' = IF Variant = "rebuild-for-outdated" /\ req.outdated
+                  THEN [MkResp(req, cfg, u, app) EXCEPT !.params = NoParams]
+                  ELSE MkResp(req, cfg, u, app)
+       /\ fwd' = [payload |-> req, response |-> FwdResponse(req, cfg, MkResp(req, cfg, u, app)), sig |-> FwdSig(req, cfg)]
   /\ sv' = StationView(fwd')
   /\ phase' = "done"
   /\ UNCHANGED <<req, cfg, u>>
